@@ -28,7 +28,7 @@ fn boundary(len: u64) -> Vec<u64> {
     v.retain(|x| true);
     v.sort(); v.dedup(); v
 }
-fn report(p: &str, msg: String, n: &mut usize) { if *n < 5 { println!("FAILING-INPUT: {} {}", p, msg); } *n += 1; }
+fn report(p: &str, msg: String, n: &mut usize) { if *n < 40 { println!("FAILING-INPUT: {} {}", p, msg); } *n += 1; }
 
 // ------------------------------------------------------------------------------------------------ C01 / C07 (slice level)
 #[test]
@@ -175,6 +175,43 @@ fn search_c03() {
     assert!(found == 0);
 }
 
+// region level: all-or-error forms, zero-length accesses at any offset
+#[test]
+fn search_region() {
+    let mut found = 0usize;
+    let mut rng = Rng(seed());
+    let reg = GuestRegionMmap::<()>::from_range(GuestAddress(0x1000), 0x400, None).unwrap();
+    let vals = boundary(0x400);
+    for _ in 0..3000 {
+        let off = rng.pick(&vals); let len = (rng.next() % 9) as usize;
+        let data = vec![0xABu8; len];
+        let z = vec![0u8; 0x400]; reg.write_slice(&z, MemoryRegionAddress(0)).unwrap();
+        let run = if off < 0x400 { len.min(0x400 - off as usize) } else { 0 };
+        let r = catch_unwind(AssertUnwindSafe(|| {
+            let mut bad: Option<(String, String)> = None;
+            let w = reg.write(&data, MemoryRegionAddress(off));
+            let ws = reg.write_slice(&data, MemoryRegionAddress(off));
+            let mut rb = vec![0u8; len];
+            let rd = reg.read(&mut rb, MemoryRegionAddress(off));
+            let rs = reg.read_slice(&mut rb, MemoryRegionAddress(off));
+            if len == 0 {
+                if !matches!(w, Ok(0)) || ws.is_err() || !matches!(rd, Ok(0)) || rs.is_err() { bad = Some(("C18".into(), format!("empty region access at offset {off:#x} is write={w:?} write_slice={ws:?} read={rd:?} read_slice={rs:?}; the byte-access contract says Ok(0)/Ok(()) at any address"))); }
+            } else {
+                if run == 0 { if w.is_ok() || ws.is_ok() || rd.is_ok() || rs.is_ok() { bad = Some(("C03,C04".into(), format!("non-empty region access at offset {off:#x} past the end succeeded"))); } }
+                else {
+                    if !matches!(w, Ok(n) if n == run) || !matches!(rd, Ok(n) if n == run) { bad = Some(("C03,C04".into(), format!("region write/read of {len} bytes at {off:#x} = {w:?}/{rd:?}, expected Ok({run})"))); }
+                    if (run == len) != ws.is_ok() || (run == len) != rs.is_ok() { bad = Some(("C03,C04".into(), format!("region write_slice/read_slice of {len} bytes at {off:#x} (fits={}) = {ws:?}/{rs:?}: the all-or-error forms must succeed exactly when the whole range fits", run == len))); }
+                    if run < len { if !matches!(ws, Err(vm_memory::GuestMemoryError::PartialBuffer { expected, completed }) if expected == len && completed == run) { bad = Some(("C03,C04".into(), format!("region write_slice of {len} bytes at {off:#x} must report PartialBuffer{{expected: {len}, completed: {run}}}, got {ws:?}"))); } }
+                }
+            }
+            bad
+        }));
+        match r { Ok(Some((p, m))) => report(&p, m, &mut found), Ok(None) => {}, Err(_) => report("C07", format!("panic in region access ({len} bytes at {off:#x})"), &mut found) }
+    }
+    println!("CASES 3000");
+    assert!(found == 0);
+}
+
 // ------------------------------------------------------------------------------------------------ C09 / C05 / C16 / C18 (bitmap)
 #[test]
 fn search_c09() {
@@ -188,6 +225,8 @@ fn search_c09() {
         for step in 0..600 {
             let s = rng.pick(&vals) as usize; let l = match rng.next() % 4 { 0 => 0, 1 => 1, 2 => (rng.next() % (3 * ps as u64 + 2)) as usize, _ => rng.pick(&vals) as usize };
             let op = rng.next() % 5;
+            // half of the steps start from a clean bitmap, so that a missing mark is not hidden by an older one
+            if rng.next() % 2 == 0 { b.reset(); model.clear(); }
             let r = catch_unwind(AssertUnwindSafe(|| match op {
                 0 | 1 => b.set_addr_range(s, l),
                 2 => b.reset_addr_range(s, l),
@@ -199,12 +238,15 @@ fn search_c09() {
             match op { 0 | 1 => { for p in range(s, l) { model.insert(p); } } 2 => { for p in range(s, l) { model.remove(&p); } } 3 => { if s < pages { model.insert(s); } } _ => { model.remove(&s); } }
             for p in 0..pages + 70 {
                 if b.is_bit_set(p) != model.contains(&p) {
-                    let pr = if op <= 1 && l == 0 { "C18" } else { "C09" };
+                    let missing = model.contains(&p); // the bitmap lacks a page the set model has
+                    let pr = if op <= 1 && l == 0 { "C09,C16,C18" } else if missing { "C09,C05" } else { "C09,C16" };
                     report(pr, format!("after step {step} op {op} (start {s:#x}, len {l:#x}) on a bitmap of {bytes} bytes / page {ps}: page {p} is {} but the set model says {}", b.is_bit_set(p), model.contains(&p)), &mut found);
+                    // resynchronise the model so that later steps are judged on their own
+                    model = (0..pages + 70).filter(|q| b.is_bit_set(*q)).collect();
                     break;
                 }
             }
-            if found > 0 { break; }
+            if found > 40 { break; }
         }
     }
     println!("CASES 5400");
